@@ -33,7 +33,29 @@ Decided:
          a negative position, ``pop()``; a top-down loop only when it keeps the last hit) -- a chained traceback has
          earlier 'Type: message' lines further up.  Orders are an abstract value (top-down / bottom-up / unknown);
          nothing is evaluated; unknown is an analysis error.
-Declined: "answers 200 for every text" over non-text inputs; which traceback texts the parser recognises.
+  R20.c  (taint) what comes from the child process reaches HTML only as a *value* of the render context: the template
+         source that is compiled is not made from the error text / the file list / anything derived from them (template
+         syntax in the text is data), and the endpoint writes none of it into a response by hand.
+  R20.d  (2) no bytes-only method is called on the text where the path conditions say it is a str (abstract domain
+         str / not str read off the dominating isinstance tests): ``x.decode`` under ``isinstance(x, str)`` raises for
+         every text and the parsed branch is dead; (3) the dict the parser made is what the template section around
+         {exc_type} / {exc_msg} reads (section -> context value -> endpoint parameter -> resource -> parser call).
+  R20.e  (2) when the builder does not pass its bare parameters, each argument at least has to be made from the
+         parameter of its position; a closure variable / the other parameter is not what the launcher collected.
+  R20.f  (2) the search from the end *covers* the last line: a slice with an upper bound, a reversed slice starting
+         below the end, a descending / negative index walk whose first position (affine in ``len``) is not the last
+         element, or a fixed position other than 0 / -1 leaves it out.
+  R20.g, R20.h  (c20_launcher.py) the child's stderr lines are sorted by one prefix test into the file-list report and
+         the error text and the hook gets the whole collected text; the hook is guarded, the server it returns serves
+         the application create_app built and is shut down on every way back into the restart loop.
+  R20.i, R20.j  (c20_inert.py) the failsafe runs / imports no code named at run time; a module imported inside a
+         function is known to be importable or its ImportError is caught.
+  R20.k  (c20_files.py) outside a catch-all the entries of the monitored-file list are only handled by operations that
+         are total on strings (taint list -> entry, followed into the functions of the module; a finite table of library
+         operations known to raise for some names).
+Declined: "answers 200 for every text" over non-text inputs; which traceback texts the parser recognises (C20a-1: the
+predicate on the part before the colon); arithmetic of the frame pairing loop (the page shows no frame); which files the
+failsafe waits on; environments (only ImportError of function-level imports is judged).
 
 The constructs are located by role: the Application(...) call create_app returns, its routes / resources /
 render_factory arguments followed through single-assignment locals, module-level constants, expression functions,
@@ -1640,6 +1662,109 @@ def _template_escapes(rep, fs):
               'template reads %r which %s does not supply' % (missing, epf.qualname), flaw, epf.node)
 
 
+def _made_from(fi, roots):
+    """Locals of ``fi`` that (may) hold something made from the names in ``roots``: the closure of ``roots`` under
+    assignment, loop and with targets."""
+    t = set(roots)
+    changed = True
+
+    def stores(target):
+        return set(n.id for n in ast.walk(target) if isinstance(n, ast.Name) and isinstance(n.ctx, ast.Store))
+
+    def loads(e):
+        return set(n.id for n in ast.walk(e) if isinstance(n, ast.Name) and isinstance(n.ctx, ast.Load)) if e is not None else set()
+    while changed:
+        changed = False
+        for st in stmts_of(fi.node):
+            new = set()
+            if isinstance(st, ast.Assign) and loads(st.value) & t:
+                for tg in st.targets:
+                    new |= stores(tg) or ({root_name(tg)} if root_name(tg) else set())
+            elif isinstance(st, (ast.AugAssign, ast.AnnAssign)) and loads(st.value) & t:
+                new |= stores(st.target) or ({root_name(st.target)} if root_name(st.target) else set())
+            elif isinstance(st, (ast.For, ast.AsyncFor)) and loads(st.iter) & t:
+                new |= stores(st.target)
+            elif isinstance(st, (ast.With, ast.AsyncWith)):
+                for it in st.items:
+                    if it.optional_vars is not None and loads(it.context_expr) & t:
+                        new |= stores(it.optional_vars)
+            elif isinstance(st, ast.Expr) and isinstance(st.value, ast.Call) and isinstance(st.value.func, ast.Attribute) and \
+                    isinstance(st.value.func.value, ast.Name) and any(loads(a) & t for a in st.value.args):
+                new.add(st.value.func.value.id)          # parts.append(text)
+            if new - t:
+                t |= new
+                changed = True
+    return t
+
+
+def _string_building(repo, fi, e):
+    """The sub-expressions of ``e`` that build a string out of pieces: ``'..' % x``, ``'..' + x``, f-strings,
+    ``'..'.format(x)``, ``'..'.join(xs)``, ``T.replace(a, b)`` -- the constant part may be a module-level constant."""
+    def is_text(x):
+        return isinstance(x, ast.JoinedStr) or isinstance(_fold(repo, fi, x), str)
+    out = []
+    for n in ast.walk(e):
+        if isinstance(n, ast.JoinedStr) and any(isinstance(v, ast.FormattedValue) for v in n.values):
+            out.append(n)
+        elif isinstance(n, ast.BinOp) and isinstance(n.op, ast.Mod) and is_text(n.left):
+            out.append(n)
+        elif isinstance(n, ast.BinOp) and isinstance(n.op, ast.Add) and (is_text(n.left) or is_text(n.right)):
+            out.append(n)
+        elif isinstance(n, ast.Call) and isinstance(n.func, ast.Attribute) and n.func.attr in ('format', 'join', 'replace', 'format_map') \
+                and is_text(n.func.value):
+            out.append(n)
+    return out
+
+
+def _text_only_through_template(rep, fs):
+    """R20.c (taint): what comes from the child process -- the error text, the file names, and whatever is made from
+    them -- reaches HTML only as a *value* of the render context, where the template's filter escapes it: it is never
+    part of the template source that is compiled, and the endpoint never writes it into a response by hand."""
+    repo, flaw, ca = fs.repo, fs.flaw, fs.ca
+    rep.rule('R20.c', 'every reference in the failsafe template is HTML-escaped; autoescaping is never switched off')
+    for rfi, c in fs.registrations:
+        src_e = argn(c, 'source', 1)
+        if src_e is None:
+            continue
+        if rfi is ca:
+            roots = set(ca.params())
+        else:
+            roots = set()
+            made = _made_from(ca, set(ca.params()))
+            for c2 in walk_body(ca.node):
+                g = _module_callee(repo, ca, c2)
+                if g is None or g.key != rfi.key:
+                    continue
+                gps = g.params()
+                for i, a in enumerate(c2.args):
+                    if i < len(gps) and set(n.id for n in ast.walk(a) if isinstance(n, ast.Name)) & made:
+                        roots.add(gps[i])
+                for k in c2.keywords:
+                    if k.arg in gps and set(n.id for n in ast.walk(k.value) if isinstance(n, ast.Name)) & made:
+                        roots.add(k.arg)
+        made = _made_from(rfi, roots)
+        names = set(n.id for e in (src_e, _closed(rfi, src_e)) for n in ast.walk(e) if isinstance(n, ast.Name))
+        hit = sorted(names & made)
+        rep.check('R20.c', fkey(rfi, 'template source'), not hit,
+                  'the template source that is compiled does not depend on the error text or the file list' if not hit else
+                  'the template source is made from %s (%s): template syntax in the error text is compiled and run, markup in it is '
+                  'emitted as it is' % (', '.join(hit), short(src_e, 60)), flaw, c)
+    epf = fs.endpoint
+    made = _made_from(epf, set(_all_params(epf)))
+    for r in returns_of(epf):
+        if r.value is None:
+            continue
+        v = _deref(epf, r.value)
+        if isinstance(v, ast.Dict) or (isinstance(v, ast.Call) and call_name(v) == 'dict') or isinstance(v, ast.Name):
+            continue          # the render context (read by fs.context)
+        by_hand = [n for n in _string_building(repo, epf, _closed(epf, r.value))
+                   if set(x.id for x in ast.walk(n) if isinstance(x, ast.Name)) & made]
+        if by_hand:
+            rep.fail('R20.c', fkey(epf, r),
+                     '%s returns %s, in which %s is written into the response by hand: it does not pass the template, so nothing '
+                     'escapes it' % (epf.qualname, short(r.value, 50), short(by_hand[0], 50)), flaw, r)
+
+
 def _is_decorated(g, what):
     return [norm(d) for d in g.node.decorator_list] == [what]
 
@@ -1864,6 +1989,123 @@ def _order(repo, fi, e, depth=0):
     return None
 
 
+def _covers_end(repo, fi, e, depth=0):
+    """Does the sequence / iterable ``e`` of lines still hold the *last* line of the text?  True / False / None (cannot be
+    told).  A slice with an upper bound (``lines[:-1]``, ``lines[1:-1]``), or a reversed slice that starts below the end
+    (``lines[-2::-1]``), leaves it out."""
+    if depth > 10 or e is None:
+        return None
+    if isinstance(e, ast.Call):
+        f = e.func
+        if isinstance(f, ast.Name) and not (f.id in _all_params(fi) or assigned_value(fi.node, f.id)):
+            if f.id in _KEEPS_ORDER + ('reversed', 'sorted') and e.args and not any(isinstance(a, ast.Starred) for a in e.args):
+                return _covers_end(repo, fi, e.args[0], depth + 1)
+            if f.id in ('filter', 'map') and len(e.args) == 2 and not e.keywords:
+                return _covers_end(repo, fi, e.args[1], depth + 1)
+            v = _inline_expression_call(fi, e)
+            if v is not None:
+                return _covers_end(repo, fi, v, depth + 1)
+            return None
+        if isinstance(f, ast.Attribute):
+            if f.attr in ('splitlines', 'split', 'rsplit'):
+                return True
+            if f.attr == 'copy' and not e.args and not e.keywords:
+                return _covers_end(repo, fi, f.value, depth + 1)
+        return None
+    if isinstance(e, ast.Subscript) and isinstance(e.slice, ast.Slice):
+        sl = e.slice
+        step = 1 if sl.step is None else _const_index(sl.step)
+        if not step:
+            return None
+        inner = _covers_end(repo, fi, e.value, depth + 1)
+        if step > 0:
+            if sl.upper is None:
+                return inner
+            return False if _const_index(sl.upper) is not None else None
+        if sl.lower is None:
+            return inner
+        k = _const_index(sl.lower)
+        if k is None:
+            return None
+        return inner if k == -1 else False
+    if isinstance(e, (ast.GeneratorExp, ast.ListComp)) and len(e.generators) == 1 and not e.generators[0].is_async:
+        return _covers_end(repo, fi, e.generators[0].iter, depth + 1)
+    if isinstance(e, ast.Name):
+        name = e.id
+        binds = assigned_value(fi.node, name)
+        if name in _all_params(fi):
+            if binds:
+                return None
+            sites = _call_site_args(repo, fi, name)
+            if not sites:
+                return None
+            vs = set(_covers_end(repo, caller, a, depth + 1) for caller, a in sites)
+            return False if False in vs else (True if vs == {True} else None)
+        if not binds:
+            return None
+        vs = set()
+        for st, v, idx in binds:
+            if isinstance(st, (ast.Assign, ast.AnnAssign)) and idx is None:
+                vs.add(_covers_end(repo, fi, v, depth + 1))
+            elif isinstance(st, ast.Assign) and isinstance(idx, int) and isinstance(v, ast.Tuple) and len(v.elts) > idx and \
+                    not any(isinstance(x, ast.Starred) for x in v.elts):
+                vs.add(_covers_end(repo, fi, v.elts[idx], depth + 1))
+            else:
+                vs.add(None)
+        return False if False in vs else (True if vs == {True} else None)
+    return None
+
+
+def _affine(fi, e, var, depth=0):
+    """(coefficient of ``var``, constant, coefficient of ``len(..)``) of an index expression made of ``var``, integer
+    constants, ``len(<sequence>)``, ``+``, ``-``, unary ``-`` and ``~``; None for anything else."""
+    if depth > 8:
+        return None
+    if isinstance(e, ast.Name):
+        if e.id == var:
+            return (1, 0, 0)
+        v = _single_value(fi, e.id)
+        return _affine(fi, v, var, depth + 1) if v is not None else None
+    k = _const_index(e)
+    if k is not None:
+        return (0, k, 0)
+    if isinstance(e, ast.Call) and call_name(e) == 'len' and len(e.args) == 1 and not e.keywords:
+        return (0, 0, 1)
+    if isinstance(e, ast.UnaryOp) and isinstance(e.op, (ast.USub, ast.Invert, ast.UAdd)):
+        a = _affine(fi, e.operand, var, depth + 1)
+        if a is None:
+            return None
+        if isinstance(e.op, ast.UAdd):
+            return a
+        if isinstance(e.op, ast.USub):
+            return (-a[0], -a[1], -a[2])
+        return (-a[0], -a[1] - 1, -a[2])
+    if isinstance(e, ast.BinOp) and isinstance(e.op, (ast.Add, ast.Sub)):
+        a, b = _affine(fi, e.left, var, depth + 1), _affine(fi, e.right, var, depth + 1)
+        if a is None or b is None:
+            return None
+        sg = 1 if isinstance(e.op, ast.Add) else -1
+        return (a[0] + sg * b[0], a[1] + sg * b[1], a[2] + sg * b[2])
+    return None
+
+
+def _first_index_is_end(fi, sub, var, loop_iter):
+    """For ``xs[<affine in var>]`` with ``var`` running over ``range(start, ..)``: is the first position visited the last
+    element (``len(xs) - 1`` or ``-1``)?  True / False / None (not of that shape)."""
+    it = loop_iter
+    while isinstance(it, ast.Call) and call_name(it) in ('iter', 'list', 'tuple') and len(it.args) == 1:
+        it = it.args[0]
+    if not (isinstance(it, ast.Call) and call_name(it) == 'range' and not it.keywords and 1 <= len(it.args) <= 3):
+        return None
+    start = it.args[0] if len(it.args) >= 2 else ast.Constant(value=0)
+    idx = _affine(fi, sub.slice, var)
+    st = _affine(fi, start, '\0')
+    if idx is None or st is None or idx[0] == 0:
+        return None
+    first = (idx[1] + idx[0] * st[1], idx[2] + idx[0] * st[2])
+    return first in ((-1, 1), (-1, 0))
+
+
 def _early_exit(loop):
     """The loop can be left before its iterable is used up: a ``break`` of its own or a ``return`` in its body."""
     def rec(nodes, inner):
@@ -1917,6 +2159,13 @@ def _first_or_last(order, first, what, search):
         return _Pick(None, 'the order of %s cannot be told' % what, search)
     end = (order == _REV) == first
     return _Pick(end, 'the %s element of %s, which runs %s' % ('first' if first else 'last', what, order), search)
+
+
+def _left_out(pick, covers, what):
+    """A pick from the end of a sequence that no longer holds the last line of the text is not a pick from the end."""
+    if pick.end is True and covers is False:
+        return _Pick(False, '%s; but %s leaves out the last line of the text' % (pick.why, what), pick.search)
+    return pick
 
 
 def _index_sign(e, var):
@@ -1984,8 +2233,13 @@ def _pick_indexed(repo, fi, sub, depth):
     if so == _REV:
         walk = _flip(walk)
     end = (walk == _REV) == early
-    return _Pick(end, '%s: the index %s walks the text %s and the search %s' %
+    pick = _Pick(end, '%s: the index %s walks the text %s and the search %s' %
                  (what, var, walk, 'stops at the first hit' if early else 'keeps the last hit'), True)
+    covers = _covers_end(repo, fi, sub.value, depth + 1)
+    if covers is not False and walk == _REV and early and fors:
+        if _first_index_is_end(fi, sub, var, fors[0][0].iter) is False:
+            covers = False
+    return _left_out(pick, covers, 'the walk of %s' % what)
 
 
 def _combine(picks, what):
@@ -2027,8 +2281,9 @@ def _pick(repo, fi, e, depth=0):
                 if o is None:
                     picks.append(_Pick(None, 'the order of %s cannot be told' % short(st.iter, 40), True))
                 else:
-                    picks.append(_Pick((o == _REV) == early, 'the loop over %s runs %s and %s' % (
-                        short(st.iter, 40), o, 'stops at the first hit' if early else 'keeps the last hit'), True))
+                    picks.append(_left_out(_Pick((o == _REV) == early, 'the loop over %s runs %s and %s' % (
+                        short(st.iter, 40), o, 'stops at the first hit' if early else 'keeps the last hit'), True),
+                        _covers_end(repo, fi, st.iter, depth + 1), short(st.iter, 40)))
             elif isinstance(st, (ast.Assign, ast.AnnAssign)) and idx is None:
                 p = _pick(repo, fi, v, depth + 1)
                 picks.append(_Pick(p.end, p.why, p.search or in_loop))
@@ -2051,12 +2306,17 @@ def _pick(repo, fi, e, depth=0):
             if base.func.attr == 'partition' and k in (0, -3):
                 return _Pick(False, '%s: the text before the first separator' % what)
             return _Pick(None, '%s: not one line of the text' % what)
-        return _first_or_last(_order(repo, fi, base, depth + 1), k >= 0, short(base, 40), _is_filtered(fi, base))
+        if k not in (0, -1):
+            return _Pick(False if _order(repo, fi, base, depth + 1) is not None else None,
+                         '%s: a fixed position that is neither end of %s' % (what, short(base, 40)), _is_filtered(fi, base))
+        return _left_out(_first_or_last(_order(repo, fi, base, depth + 1), k >= 0, short(base, 40), _is_filtered(fi, base)),
+                         _covers_end(repo, fi, base, depth + 1), short(base, 40))
     if isinstance(e, ast.Call):
         f = e.func
         if isinstance(f, ast.Name) and not (f.id in _all_params(fi) or assigned_value(fi.node, f.id)):
             if f.id == 'next' and 1 <= len(e.args) <= 2 and not e.keywords:
-                return _first_or_last(_order(repo, fi, e.args[0], depth + 1), True, short(e.args[0], 40), True)
+                return _left_out(_first_or_last(_order(repo, fi, e.args[0], depth + 1), True, short(e.args[0], 40), True),
+                                 _covers_end(repo, fi, e.args[0], depth + 1), short(e.args[0], 40))
             if f.id == 'str' and len(e.args) == 1 and not e.keywords:
                 return _pick(repo, fi, e.args[0], depth + 1)
             v = _inline_expression_call(fi, e)
@@ -2068,7 +2328,8 @@ def _pick(repo, fi, e, depth=0):
             k = _const_index(e.args[0]) if e.args else -1
             if k is None:
                 return _Pick(None, '%s: position cannot be told' % what)
-            return _first_or_last(_order(repo, fi, f.value, depth + 1), k >= 0, short(f.value, 40), False)
+            return _left_out(_first_or_last(_order(repo, fi, f.value, depth + 1), k >= 0, short(f.value, 40), False),
+                             _covers_end(repo, fi, f.value, depth + 1), short(f.value, 40))
         hit = _callee_of(repo, fi, e)
         if hit is not None:
             g = hit[0]
@@ -2080,6 +2341,102 @@ def _pick(repo, fi, e, depth=0):
                 picks.append(_Pick(p.end, p.why, p.search or bool(_enclosing_loops(g, r))))
             return _combine(picks, 'the result of %s' % g.qualname)
     return _Pick(None, '%s is not a way of taking a line that can be followed' % what)
+
+
+def _bytes_methods_on_text(rep, fs, parser):
+    """R20.d: the path a *text* takes through the parser (and through create_app / the endpoint before it) calls no
+    bytes-only method on it: ``x.decode(..)`` where the path conditions say ``isinstance(x, str)`` raises AttributeError
+    for every text, so the parsed branch is never reached (abstract domain: str / not str, read off the isinstance
+    tests that dominate the call)."""
+    from .common import isinstance_test
+    flaw = fs.flaw
+    seen = 0
+    for fi in (parser, fs.ca, fs.endpoint):
+        for n in walk_body(fi.node):
+            if not (isinstance(n, ast.Call) and isinstance(n.func, ast.Attribute) and n.func.attr == 'decode' and
+                    isinstance(n.func.value, ast.Name)):
+                continue
+            var = n.func.value.id
+            known_str = None
+            for t, pol in conds(fi, n):
+                while isinstance(t, ast.UnaryOp) and isinstance(t.op, ast.Not):
+                    t, pol = t.operand, not pol
+                if isinstance_test(t, var=var, cls='str') and not (isinstance(t.args[1], ast.Tuple) and len(t.args[1].elts) > 1):
+                    known_str = pol
+                elif isinstance_test(t, var=var, cls='bytes') and pol is True:
+                    known_str = False
+            seen += 1
+            rep.check('R20.d', fkey(fi, n), known_str is not True,
+                      '%s is not called where the value is known to be text' % short(n, 40) if known_str is not True else
+                      '%s is called where isinstance(%s, str) holds: AttributeError for every text, so a standard traceback is '
+                      'never parsed and the page never names its exception type and message' % (short(n, 40), var), flaw, n)
+
+
+def _parsed_reaches_section(rep, fs):
+    """R20.d: what the parser produced is what the template section around ``{exc_type}`` / ``{exc_msg}`` reads: section
+    name -> endpoint context value -> endpoint parameter -> resource of that name -> a local of create_app one of whose
+    bindings is made by the parser (the others being the handler's fall-back)."""
+    repo, flaw, ca, epf = fs.repo, fs.flaw, fs.ca, fs.endpoint
+    tmpl_name, src_e, text, reg, _rfi = fs.template
+    tags = dust.tokenize(repo, text)
+    stack, sections = [], set()
+    for t in tags:
+        if t.kind == 'close':
+            if stack:
+                stack.pop()
+            continue
+        if t.kind == 'ref' and t.refpath in ('exc_type', 'exc_msg'):
+            sections.add(stack[-1].refpath if stack else None)
+        if t.kind == 'section' and not t.selfclosing:
+            stack.append(t)
+    if len(sections) != 1 or None in sections:
+        rep.notes.append('R20.d declined: the template section around {exc_type} / {exc_msg} cannot be told (%r)' % sorted(map(str, sections)))
+        return
+    sect = sections.pop().split('.')[0]
+    leaky, calls_parser = _leaky_parser_functions(repo, flaw)
+
+    def from_parser(fi, e, depth=0):
+        if depth > 4 or e is None:
+            return False
+        for n in ast.walk(e):
+            if isinstance(n, ast.Call):
+                g = _module_callee(repo, fi, n)
+                if _is_parser_call(fi, n) or (g is not None and g.qualname in calls_parser):
+                    return True
+            elif isinstance(n, ast.Name) and isinstance(n.ctx, ast.Load) and n.id not in _all_params(fi):
+                if any(from_parser(fi, v, depth + 1) for st, v, idx in assigned_value(fi.node, n.id) if v is not None and v is not e):
+                    return True
+                if not assigned_value(fi.node, n.id) and n.id in calls_parser and n.id in fi.mod.functions:
+                    return True           # a function that runs the parser, handed on by reference
+            elif isinstance(n, ast.Attribute) and n.attr in PARSER_METHODS and norm(n.value) == PARSER_CLASS:
+                return True               # _ParsedTB.from_string handed on by reference
+            elif isinstance(n, ast.Lambda):
+                continue
+        return False
+    res = fs.resources
+    for r, items in fs.context:
+        key = fkey(epf, 'section %s' % sect)
+        if sect not in items:
+            rep.fail('R20.d', key, 'the endpoint context has no %r, the section the template shows the exception type and message in' % sect,
+                     flaw, r)
+            continue
+        pname = _param_behind(epf, items[sect])
+        if pname is None:
+            made = _made_from(epf, set(_all_params(epf)))
+            if not (set(n.id for n in ast.walk(items[sect]) if isinstance(n, ast.Name)) & made):
+                rep.fail('R20.d', key, 'the value of %r in the endpoint context (%s) is not made from anything the endpoint was given: '
+                         'the parsed exception type and message never reach the page' % (sect, short(items[sect], 40)), flaw, r)
+            else:
+                rep.notes.append('R20.d declined: how the context value %s of %r is made cannot be followed' % (short(items[sect], 40), sect))
+            continue
+        if pname not in res:
+            continue          # (reported by R20.b: resources vs endpoint parameters)
+        v = res[pname]
+        ok = v is not None and from_parser(ca, v)
+        rep.check('R20.d', key, ok,
+                  'the section {#%s} reads the resource %r, which create_app makes with the traceback parser' % (sect, pname) if ok else
+                  'the section {#%s} reads the resource %r, but what create_app puts there (%s) is not made by the traceback parser: the page '
+                  'never names the exception type and message' % (sect, pname, short(v, 40) if v is not None else '?'), flaw, r)
 
 
 def _parsed_branch(rep, fs):
@@ -2130,6 +2487,7 @@ def _parsed_branch(rep, fs):
     rep.check('R20.d', fkey(fs_, 'cls(exc_type, exc_msg, ...)'), ok,
               'parsed type and message are passed in constructor order' if ok else
               'from_string does not construct cls(exc_type, exc_msg, ...)', flaw, fs_.node)
+    _bytes_methods_on_text(rep, fs, fs_)
     asg = dict((norm(s.targets[0]), norm(s.value)) for s in stmts_of(init.node) if isinstance(s, ast.Assign))
     ok = asg.get('self.exc_type') == ps[1] and asg.get('self.exc_msg') == ps[2]
     rep.check('R20.d', fkey(init, 'fields'), ok, 'constructor stores type and message in the matching fields' if ok else
@@ -2177,6 +2535,8 @@ def _exception_line_from_end(rep, fs):
                                 'is taken (%s)' % p.why)
         rep.check('R20.f', fkey(fs_, 'exception line' + ('' if n == 0 else ' #%d' % (n + 1))), p.end,
                   'the exception line is the bottom-most candidate (%s)' % p.why if p.end else
+                  ('the search for the line split into type and message does not reach the last line of the text, which is where a '
+                   'standard traceback names its exception (%s)' % p.why) if ('leaves out the last line' in p.why or 'neither end' in p.why) else
                   'the line split into type and message is searched from the top of the text, so a chained traceback is '
                   'reported with its first exception, not the one on its last line (%s)' % p.why, flaw, c)
 
@@ -2276,34 +2636,10 @@ def _list_updates(repo, mod, fi, name, origin, depth=0, seen=None):
     return updated, problems
 
 
-def _launcher_handover(rep, fs):
-    """R20.e: the development server gives the failsafe the error text and the file list the child reported.  The
-    constructs are located by role; where they cannot be, the judgement is declined (a note), never guessed."""
-    repo = fs.repo
-    server = repo.mod('clastic.server')
-    rep.rule('R20.e', 'the launcher passes the error text and the monitored-file list it collected on to flaw.create_app')
-    cparams = fs.ca.params()
-    builders = [(fi, c) for q, fi in sorted(server.functions.items()) for c in walk_body(fi.node)
-                if isinstance(c, ast.Call) and call_tail(c) == 'create_app']
-    if len(cparams) < 2 or not builders:
-        rep.notes.append('R20.e declined: no call of flaw.create_app found in server.py')
-    for fi, c in builders:
-        a0, a1 = argn(c, cparams[0], 0), argn(c, cparams[1], 1)
-        ps = fi.params()
-        p0 = _param_behind(fi, a0) if a0 is not None else None
-        p1 = _param_behind(fi, a1) if a1 is not None else None
-        if a0 is not None and a1 is not None and (p0 is None or p1 is None):
-            rep.notes.append('R20.e declined: the arguments of %s are not parameters of %s' % (short(c, 60), fi.qualname))
-            continue
-        ok = p0 is not None and p1 is not None and p0 != p1 and ps.index(p0) < ps.index(p1)
-        rep.check('R20.e', fkey(fi, 'create_app arguments'), ok,
-                  'the failsafe is built from the error text and the file list this function was given' if ok else
-                  'create_app is not called with (error text, monitored files) as received: %s' % short(c, 80), server, c)
-    rwr = server.functions.get('restart_with_reloader')
-    if rwr is None or not rwr.params():
-        rep.notes.append('R20.e declined: restart_with_reloader(error_func) not found')
-        return
-
+def locate_hook(repo, server, rwr):
+    """(function holding the call, [the call of the error hook ``hook(text, files)``], name of the file list in
+    restart_with_reloader): the hook is a parameter of restart_with_reloader called with two positional arguments, in
+    restart_with_reloader itself or in a function of the module it hands the hook (and the list) to."""
     def hook_calls(fi, hook_params):
         return [c for c in walk_body(fi.node) if isinstance(c, ast.Call) and isinstance(c.func, ast.Name) and c.func.id in hook_params
                 and len(c.args) == 2 and not c.keywords and not assigned_value(fi.node, c.func.id)]
@@ -2325,6 +2661,61 @@ def _launcher_handover(rep, fs):
                 back = c.args[gps.index(hs[0].args[1].id)]
                 owner, hooks, X = g, hs, _canon_name(rwr, back)
                 break
+    return owner, hooks, X
+
+
+def _launcher_handover(rep, fs):
+    """R20.e: the development server gives the failsafe the error text and the file list the child reported.  The
+    constructs are located by role; where they cannot be, the judgement is declined (a note), never guessed."""
+    repo = fs.repo
+    server = repo.mod('clastic.server')
+    rep.rule('R20.e', 'the launcher passes the error text and the monitored-file list it collected on to flaw.create_app')
+    cparams = fs.ca.params()
+    builders = [(fi, c) for q, fi in sorted(server.functions.items()) for c in walk_body(fi.node)
+                if isinstance(c, ast.Call) and call_tail(c) == 'create_app']
+    if len(cparams) < 2 or not builders:
+        rep.notes.append('R20.e declined: no call of flaw.create_app found in server.py')
+    for fi, c in builders:
+        a0, a1 = argn(c, cparams[0], 0), argn(c, cparams[1], 1)
+        ps = fi.params()
+        def unwrapped(a):
+            # a copy of the parameter carries what the parameter carries: list(files), tuple(files), files[:], str(text)
+            for _ in range(4):
+                a = _deref(fi, a)
+                if isinstance(a, ast.Call) and call_name(a) in ('list', 'tuple', 'str') and len(a.args) == 1 and not a.keywords:
+                    a = a.args[0]
+                elif isinstance(a, ast.Subscript) and isinstance(a.slice, ast.Slice) and a.slice.lower is None and \
+                        a.slice.upper is None and a.slice.step is None:
+                    a = a.value
+                else:
+                    break
+            return a
+        p0 = _param_behind(fi, unwrapped(a0)) if a0 is not None else None
+        p1 = _param_behind(fi, unwrapped(a1)) if a1 is not None else None
+        if a0 is not None and a1 is not None and (p0 is None or p1 is None):
+            # not the bare parameters: each has at least to be made from the parameter of its position (the hook is
+            # called as hook(text, files)); something else -- a closure variable, the other parameter -- is not what
+            # the launcher collected
+            foreign = []
+            if len(ps) >= 2:
+                for a, mine, what in ((a0, ps[0], 'error text'), (a1, ps[1], 'file list')):
+                    names = set(n.id for e in (a, _closed(fi, a)) for n in ast.walk(e) if isinstance(n, ast.Name))
+                    if mine not in names:
+                        foreign.append('the %s it builds the failsafe from (%s) is not made from its parameter %s' % (what, short(a, 40), mine))
+            if foreign:
+                rep.fail('R20.e', fkey(fi, 'create_app arguments'), '%s: %s' % (fi.qualname, '; '.join(foreign)), server, c)
+            else:
+                rep.notes.append('R20.e declined: the arguments of %s are not parameters of %s' % (short(c, 60), fi.qualname))
+            continue
+        ok = p0 is not None and p1 is not None and p0 != p1 and ps.index(p0) < ps.index(p1)
+        rep.check('R20.e', fkey(fi, 'create_app arguments'), ok,
+                  'the failsafe is built from the error text and the file list this function was given' if ok else
+                  'create_app is not called with (error text, monitored files) as received: %s' % short(c, 80), server, c)
+    rwr = server.functions.get('restart_with_reloader')
+    if rwr is None or not rwr.params():
+        rep.notes.append('R20.e declined: restart_with_reloader(error_func) not found')
+        return
+    owner, hooks, X = locate_hook(repo, server, rwr)
     if len(hooks) != 1 or X is None or X in rwr.params():
         rep.notes.append('R20.e declined: the call of the error hook (text, files) in restart_with_reloader was not found')
         return
@@ -2357,8 +2748,12 @@ def run(rep):
     rep.decide('R20.a names resolve; R20.b parser cannot prevent the page, route/template/resource agreement; '
                'R20.c template auto-escapes every reference; R20.d parsed branch reachable and fed; '
                'R20.e the launcher hands over the collected text and file list; '
-               'R20.f the exception line is searched from the end of the text')
-    rep.decline('totality over non-text inputs (bytes/None through ashes); coverage of traceback grammars')
+               'R20.f the exception line is searched from the end of the text and the search covers the last line; '
+               'R20.g the child\'s stderr reaches the hook as the error text; R20.h the failsafe server is served and taken down; '
+               'R20.i no code named at run time; R20.j function-level imports cannot stop the construction; '
+               'R20.k file names are handled by total string operations only')
+    rep.decline('totality over non-text inputs (bytes/None through ashes); coverage of traceback grammars (which strings count as '
+                'the exception line: value-level, C20a-1); index arithmetic of the frame pairing loop (no frame is shown on the page)')
     rep.assume('ashes 19.2.0 filter semantics as read from the pinned source (apply_filters)')
     fs = _Failsafe(repo)
     repo.mod('clastic.server')
@@ -2370,7 +2765,17 @@ def run(rep):
     _group(rep, _static_nonbreaking, rep, fs)
     _group(rep, _file_lists_kept, rep, fs)
     _group(rep, _shown_is_given, rep, fs)
+    _group(rep, _text_only_through_template, rep, fs)
     _group(rep, _template_escapes, rep, fs)
     _group(rep, _parsed_branch, rep, fs)
+    _group(rep, _parsed_reaches_section, rep, fs)
     _group(rep, _exception_line_from_end, rep, fs)
     _group(rep, _launcher_handover, rep, fs)
+    from . import c20_launcher
+    _group(rep, c20_launcher.stderr_to_hook, rep, fs)
+    _group(rep, c20_launcher.served_and_taken_down, rep, fs)
+    from . import c20_inert
+    _group(rep, c20_inert.no_code_named_at_run_time, rep, fs)
+    _group(rep, c20_inert.function_level_imports, rep, fs)
+    from . import c20_files
+    _group(rep, c20_files.file_names_total, rep, fs)
